@@ -66,6 +66,7 @@ type Case struct {
 	SubPick      int    `json:"subpick"`      // which earlier sub-channel transaction goes with it
 	Order        []int  `json:"order"`
 	Concurrent   bool   `json:"concurrent"`
+	CtxEnds      bool   `json:"ctxends,omitempty"` // the context H's update handler passes to Accept ends the moment its acceptance is on the wire
 }
 
 func drawCase(t *rapid.T) Case {
@@ -118,6 +119,7 @@ func drawCase(t *rapid.T) Case {
 			c.ReleaseEarly = false
 		}
 	}
+	c.CtxEnds = rapid.IntRange(0, 3).Draw(t, "ctxends") == 0
 	c.OldPick = rapid.IntRange(0, 40).Draw(t, "oldpick")
 	c.SubPick = rapid.IntRange(0, 40).Draw(t, "subpick")
 	switch rapid.IntRange(0, 2).Draw(t, "order") {
@@ -220,6 +222,10 @@ func runCase(c Case, known func(string) bool) *h.Outcome {
 		return fail("harness", "creating parties: %v", err)
 	}
 	defer pr.Env.Close()
+	if c.CtxEnds {
+		pr.CtxEndsAfterAccept[H].Store(true)
+		o.Class("honest-accept-context-ends-after-sending")
+	}
 	L := pr.Env.Ledger
 	for i := 0; i < 2; i++ {
 		for _, a := range assets {
